@@ -734,6 +734,31 @@ def _grp_terminals():
     ]
 
 
+class SubCoefficient(ufl.Coefficient):
+    """A user subclass of Coefficient (as form compilers' Function classes are)."""
+
+
+class SubConstant(ufl.Constant):
+    """A user subclass of Constant."""
+
+
+def _grp_subclasses():
+    """Forms that mix plain terminals with instances of user subclasses: numbering must not depend on the Python type."""
+    def mk(fn):
+        return lambda: (lambda b: fn(b) * b.dx)(B())
+
+    base = mk(lambda b: b.f * SubCoefficient(b.P1) * b.v)
+    return "subclasses", base, [
+        ("rebuilt", mk(lambda b: b.f * SubCoefficient(b.P1) * b.v)),
+        ("coefficient-identity", mk(lambda b: (lambda s: s * s * b.v)(SubCoefficient(b.P1)))),
+        ("coefficient-identity", mk(lambda b: b.f * b.f * b.v)),
+        ("coefficient-identity", mk(lambda b: (lambda s, t: s * t * b.v + b.f * s * b.v)(SubCoefficient(b.P1), SubCoefficient(b.P1)))),
+        ("coefficient-vs-constant", mk(lambda b: b.f * SubConstant(b.mesh) * b.v)),
+        ("coefficient-vs-constant", mk(lambda b: (lambda c: c * c * b.v)(SubConstant(b.mesh)))),
+        ("coefficient-vs-constant", mk(lambda b: b.c * SubConstant(b.mesh) * b.v)),
+    ]
+
+
 def _grp_constant():
     def mk(shape, comp):
         return lambda: (lambda b: b.f * ufl.Constant(b.mesh, shape)[comp] * b.v * b.dx)(B())
@@ -805,7 +830,7 @@ def battery():
     groups = [
         _grp_literal(), _grp_index(), _grp_operator(), _grp_restriction(), _grp_element(), _grp_domain(), _grp_integral_type(),
         _grp_subdomain(), _grp_metadata_scalar(), *_grp_metadata_long(), _grp_metadata_precision(), _grp_terminals(), *_grp_constant(), *_grp_bfo(),
-        _grp_zero_free_indices(),
+        _grp_zero_free_indices(), _grp_subclasses(),
     ]
     return groups
 
